@@ -157,6 +157,19 @@ SPECS += [
          consts=_ITEMS, props=["C19"], **SCHED_COMMON),
 ]
 
+# ---- schedule.py : Composition._validate_composition, the order of the checks (C19) ---------------------------------
+_H = lambda n: {"lean": n, "args": [1], "argtypes": ["Obj"], "stmt": True, "heap": True}  # noqa
+SPECS += [
+    dict(lean="validate_composition", path="schedule.py", qual="Composition._validate_composition", group="ValidateAll",
+         fields={"_components": "List[Obj]"}, ret="Unit",
+         consts={"comp.inputs.values()": ("(h.inputs comp)", "List[Obj]"), "comp.outputs.values()": ("(h.outputs comp)", "List[Obj]")},
+         calls={"_check_input_connected": _H("check_input_connected"), "_check_dead_links": _H("check_dead_links"),
+                "_check_branching": _H("check_branching"),
+                "_check_missing_components": {"lean": "check_missing_components", "args": [0], "argtypes": ["List[Obj]"],
+                                              "stmt": True, "heap": True}},
+         props=["C19"], **SCHED_COMMON),
+]
+
 INTEG_COMMON = dict(
     path="adapters/time_integration.py", group="Integ", ret="Rat",
     calls={"self._unpack": "id", "interpolate": {"lean": "interpolate", "args": [0, 1, 2], "ret": "Rat"}},
